@@ -300,11 +300,50 @@ def search(ck, tier, seed):
              ("Flow(LU+Tanh-1, ConditionalDiagonalNormal)", Flow(base.CompositeTransform([lu.LULinear(2, identity_init=False), nl.LeakyReLU()]),
                                                                  normal.ConditionalDiagonalNormal([2])), 4),
              ("Flow(LU, DiagonalNormal)", Flow(lu.LULinear(2, identity_init=False), normal.DiagonalNormal([2])), None)]
+    from nflows.distributions.mixture import MADEMoG as MoG_
+    flows.append(("Flow(LU, MADEMoG)", Flow(lu.LULinear(2, identity_init=False), MoG_(2, 8, None, num_mixture_components=2, custom_initialization=True)), None))
+    import copy as copy_
+    variants = []
     for name, fl, cdim in flows:
+        variants.append((name, fl, cdim, False))
+        # ... and a deep copy whose parameters then moved (a teacher / EMA copy): ITS parameters receive ITS gradients
+        variants.append((name + " (deep copy, parameters moved)", fl, cdim, True))
+    for name, fl, cdim, copied in variants:
         torch.manual_seed(seed)
-        fl = fl.double().eval()
-        catalogue.randomize(fl, seed + 3, 0.3)
+        if not copied:
+            fl = fl.double().eval()
+            catalogue.randomize(fl, seed + 3, 0.3)
+        else:
+            orig = fl
+            fl = copy_.deepcopy(fl)
+            catalogue.randomize(fl, seed + 9, 0.3)
         D = 3 if "MAF" in name else 2
+        if copied:
+            # the copy is its own model: the original, given the copy's parameters, is the same function with the same gradients
+            xs_ = torch.randn(3, D, dtype=torch.float64)
+            cs_ = None if cdim is None else torch.randn(3, cdim, dtype=torch.float64)
+            lc = attempt(lambda: fl.log_prob(xs_, cs_).sum())
+            gc = attempt(torch.autograd.grad, lc[1], [p for p in fl.parameters() if p.requires_grad], allow_unused=True) if lc[0] == "ok" else ("err",)
+            orig.load_state_dict(fl.state_dict())
+            lo = attempt(lambda: orig.log_prob(xs_, cs_).sum())
+            go = attempt(torch.autograd.grad, lo[1], [p for p in orig.parameters() if p.requires_grad], allow_unused=True) if lo[0] == "ok" else ("err",)
+            ck.case(("c16-flow-copy-twin", name), nontrivial=True)
+            if lc[0] == "ok" and lo[0] == "ok" and gc[0] == "ok" and go[0] == "ok":
+                names_ = [n_ for n_, p_ in fl.named_parameters() if p_.requires_grad]
+                bad_ = None
+                if abs(float(lc[1]) - float(lo[1])) > 1e-9 * (1 + abs(float(lo[1]))):
+                    bad_ = "log_prob differs (%r vs %r)" % (float(lc[1]), float(lo[1]))
+                else:
+                    for n_, a_, b_ in zip(names_, gc[1], go[1]):
+                        za, zb = (torch.zeros(1) if a_ is None else a_), (torch.zeros(1) if b_ is None else b_)
+                        if (a_ is None) != (b_ is None) or float((za - zb).abs().max()) > 1e-8 * (1 + float(zb.abs().max())):
+                            bad_ = "gradient of %s: copy %s, the original holding the same parameters %s" % (
+                                n_, "none" if a_ is None else "%.4g" % float(za.abs().max()), "none" if b_ is None else "%.4g" % float(zb.abs().max()))
+                            break
+                if bad_:
+                    ck.finding("gradient:deep-copy-not-its-own-model:%s" % name.split(" (deep")[0], "%s: %s" % (name, bad_),
+                               {"search": "flow-deep-copy", "flow": name, "seed": seed})
+                    continue
         x = torch.randn(3, D, dtype=torch.float64, requires_grad=True)
         c = None if cdim is None else torch.randn(3, cdim, dtype=torch.float64, requires_grad=True)
         ck.case(("c16-flow", name), nontrivial=True)
